@@ -148,46 +148,8 @@ var sortCalls = []string{"sort.Strings", "slices.Sort", "sort.Slice", "slices.So
 func c11(w *core.World, r *core.Report) {
 	ruleSEP(w, r)
 
-	// ---- NO-PREFIX-ON-JOIN
-	r.Rule("NO-PREFIX-ON-JOIN", 1, "a prefix test against a joined instance path must test whole elements: the prefix operand must be '<joined path> + separator' (and equality handled separately). A bare HasPrefix(key, join(path)) also matches siblings whose name merely starts with the last element (ethernet-1/1 vs ethernet-1/10, case member 'log' vs leaf 'log-level').")
-	for _, f := range w.RepoFns {
-		if f.Pkg == nil || !strings.HasPrefix(f.Pkg.Pkg.Path(), core.Module+"/pkg/tree") {
-			continue
-		}
-		for _, c := range core.CallsTo(f, "strings.HasPrefix") {
-			args := core.CallArgs(c)
-			if len(args) != 2 {
-				continue
-			}
-			// is the prefix derived from a join?
-			fromJoin := false
-			endsWithSep := false
-			var visit func(v ssa.Value, d int)
-			visit = func(v ssa.Value, d int) {
-				if d > 4 {
-					return
-				}
-				for _, o := range append(core.Origins(v), v) {
-					switch x := o.(type) {
-					case *ssa.Call:
-						if core.CalleeIs(x, "strings.Join") {
-							fromJoin = true
-						}
-					case *ssa.BinOp:
-						if s, isC := core.ConstString(x.Y); isC && s == nulSep {
-							endsWithSep = true
-						}
-						visit(x.X, d+1)
-					}
-				}
-			}
-			visit(args[1], 0)
-			if !fromJoin {
-				continue
-			}
-			r.Check(endsWithSep, "NO-PREFIX-ON-JOIN", core.Site(f, "HasPrefix on joined path"), w.InstrPos(c), "prefix operand must end with the separator")
-		}
-	}
+	// ---- NO-PREFIX-ON-JOIN (shared)
+	ruleNoPrefixOnJoin(w, r)
 
 	// ---- SORT-SHARED
 	r.Rule("SORT-SHARED", 12, "no in-place sort / reverse of a slice that shares its backing array with a struct field, a package variable or the result of a repository function that hands out such state (depth 3): the key names are needed in key-statement order by some consumers (XML key elements) and in name order by others (tree levels); sorting a shared slice changes the order for everyone. Slices made locally, library results and parameters are not reported.")
